@@ -450,10 +450,10 @@ func (fc *FuncCtx) execRangeMap(x *ast.RangeStmt, m Term, li *loopInfo, st *St, 
 			body.vars[o] = Select(val, k)
 		}
 	}
-	body.ghost["$curkey"] = k
+	body.ghost["curkey"] = k
 	back := func(s *St) {
 		s.ghost["visited"] = Store(s.ghost["visited"], k, True)
-		delete(s.ghost, "$curkey")
+		delete(s.ghost, "curkey")
 		fc.assertInvs(li, s, "preserve", nil)
 	}
 	fc.execStmts(x.Body.List, 0, body, ctl{next: back, cont: back, brk: c.next, ret: c.ret})
